@@ -115,12 +115,16 @@ class Canon:
             dk = n.get("dk")
             if dk in ("param", "local", "slocal"):
                 d = n.get("d")
+                if self.keep == "id" and dk == "param":
+                    return ("local", "%s#%s" % (n.name, d), _ctype(n.t))
                 if dk == "param" and d in self.li.param_index and not self.li.param_reassigned(d):
                     return ("param", self.li.param_index[d], _ctype(n.t))
                 if self.inline and depth < self.max_depth and dk == "local":
                     df = self.li.single_def(d)
                     if df is not None and df.k != "InitListExpr":
                         return self.c(df, depth + 1)
+                if self.keep == "id":
+                    return ("local", "%s#%s" % (n.name, d), _ctype(n.t))
                 if self.keep:
                     return ("local", n.name, _ctype(n.t))
                 if d not in self.alpha:
